@@ -452,7 +452,15 @@ def check_scans(rep, rule, m, only=None, skip_prints=True):
             continue
         if only is not None and f.name not in only:
             continue
-        first, last, step = scan_range(m, f, loop, H)
+        try:
+            first, last, step = scan_range(m, f, loop, H)
+        except AnalysisBroken as e:
+            # not decidable for this loop: analysis-broken unless some rule reports a concrete finding
+            if not hasattr(rep, "deferred_broken"):
+                rep.deferred_broken = []
+            if str(e) not in rep.deferred_broken:
+                rep.deferred_broken.append(str(e))
+            continue
         n += 1
         rule.instance("%s: visits slots %s .. %s of %s->heap (step %+d)" % (f.name, first.show(), last.show(), H, step))
         rep.sample({"rule": getattr(rule, "id", "scan"), "function": f.name, "first": first.show(), "last": last.show(), "step": step})
